@@ -338,6 +338,32 @@ impl Prop for C09 {
                         compare(ctx, x, &exp, &family_tag(fam), &case.label);
                     },
                 );
+                // re-attempted requests are requests too: with one retry allowed and the k-th receive of the exchange timing
+                // out (every k), each datagram sent must still be one of the datagrams the protocol defines for this exchange
+                if t.honours_timeout {
+                    let (p, r) = t.toggles.unwrap_or((GatherToggle::Try, GatherToggle::Try));
+                    let fam = if t.name.starts_with("jc2m") { Family::Jc2m } else { t.family };
+                    let exp = if t.name.starts_with("battalion1944") { expected_exchange(fam, GatherToggle::Try, GatherToggle::Try, IP4, PORT, PORT) } else { expected_exchange(fam, p, r, IP4, PORT, PORT) };
+                    let allowed: Vec<&Vec<u8>> = exp.iter().flat_map(|c| c.sends.iter()).collect();
+                    let base = run_query((t.server)(), Box::new(Faithful), Chooser::new(&[]), || (t.call)(super::c01::timeouts(1)));
+                    let n_recv = base.log.iter().filter(|e| matches!(e, WireEvent::Recv { .. })).count().min(10);
+                    for k in 0 .. n_recv {
+                        let x = run_query((t.server)(), Box::new(TimeoutAt { k }), Chooser::new(&[]), || (t.call)(super::c01::timeouts(1)));
+                        ctx.account(&x, 0);
+                        let sends: Vec<Vec<u8>> = x.log.iter().filter_map(|e| if let WireEvent::Send { bytes, .. } = e { Some(bytes.clone()) } else { None }).collect();
+                        ctx.distinct_key(&(t.name.clone(), k, sends.len()));
+                        if let Some(bad) = sends.iter().find(|d| !allowed.iter().any(|a| *a == *d)) {
+                            ctx.violation(
+                                format!("retried-request-bytes:{}", family_tag(fam)),
+                                &[k as u32],
+                                format!("{}: with retries = 1 and receive {k} timing out, a datagram was sent that the protocol does not define for this exchange", case.label),
+                                crate::vnet::hex(bad),
+                                format!("one of {}", render_exchange(&exp)),
+                                render_log(&x.log),
+                            );
+                        }
+                    }
+                }
             }
             What::ValveChallenges { stratum, lo, hi } => {
                 for i in lo .. hi {
@@ -475,5 +501,18 @@ impl Prop for C09 {
             }
         }
         let _ = TimeoutSettings::default();
+    }
+}
+
+
+/// Delivers everything faithfully except that the k-th receive of the query times out (whatever was in flight is lost).
+struct TimeoutAt {
+    k: usize,
+}
+impl crate::vnet::Policy for TimeoutAt {
+    fn send_menu(&mut self, _pt: &crate::vnet::SendPoint) -> usize { 1 }
+    fn recv_menu(&mut self, _pt: &crate::vnet::RecvPoint) -> usize { 1 }
+    fn recv_pick(&mut self, pt: &crate::vnet::RecvPoint, _idx: usize) -> crate::vnet::Pick {
+        if pt.recv_index == self.k { crate::vnet::Pick::Timeout { drop_all: true } } else { crate::vnet::Pick::Head }
     }
 }
